@@ -223,3 +223,31 @@ Proof.
   destruct (chunks_loop (S (S (length (chunks_unread c)))) c n n [] Hi ltac:(lia)) as (c' & L & R); [destruct (n <=? _); lia|].
   exists c'. rewrite L. cbn [app]. split; [reflexivity|exact R].
 Qed.
+
+(* ---------- counted move from a buffer source into a buffer sink (per octet, no extension) ---------- *)
+Lemma write_one b x : bb_inv b -> 1 <= bb_avail b ->
+  exists b', write_to_buffer b [x] = (DOk 1, b') /\ bb_filled b' = bb_filled b ++ [x] /\ bb_offset b' = bb_offset b /\
+             bb_avail b' = bb_avail b - 1 /\ bb_size b' = bb_size b /\ bb_inv b'.
+Proof.
+  intros Hi Ha. unfold write_to_buffer. cbn [length N.of_nat Pos.of_succ_nat].
+  destruct (add_accepted b [x] 1 Hi Ha ltac:(cbn; lia)) as (b' & A & F & O & U & S & _ & _ & I).
+  rewrite A. exists b'. split; [reflexivity|]. split; [exact F|]. split; [exact O|]. split; [unfold bb_avail; lia|]. auto.
+Qed.
+
+Theorem buf_sts_n_spec : forall fuel total rest s k, bb_inv s -> bb_inv k -> rest <= bb_rest s -> rest <= bb_avail k -> (N.to_nat rest < fuel)%nat ->
+  exists s' k', buf_sts_n fuel total rest s k = Some (DOk total, s', k') /\
+    bb_unread s' = skipn (N.to_nat rest) (bb_unread s) /\ bb_filled k' = bb_filled k ++ firstn (N.to_nat rest) (bb_unread s) /\
+    bb_offset k' = bb_offset k /\ bb_inv s' /\ bb_inv k'.
+Proof.
+  induction fuel as [|f IH]; intros total rest s k His Hik Hr Ha Hf; [lia|]. cbn [buf_sts_n].
+  destruct (N.eqb_spec rest 0) as [->|Hne].
+  { exists s, k. cbn [N.to_nat skipn firstn]. rewrite app_nil_r. auto 10. }
+  destruct (read_from_buffer_spec s 1 His ltac:(lia)) as [[E _]|(E & s1 & R & U1 & R1 & _ & _ & _ & I1)]; [lia|].
+  replace (N.min 1 (bb_rest s)) with 1 in * by lia. rewrite R.
+  destruct (bb_unread s) as [|x u] eqn:Eu; [pose proof (unread_length s His); rewrite Eu in *; cbn in *; lia|].
+  cbn [N.to_nat Pos.to_nat Pos.iter_op Nat.add firstn skipn] in *. change (Pos.to_nat 1) with 1%nat in *. cbn [firstn skipn] in *.
+  destruct (write_one k x Hik ltac:(lia)) as (k1 & W & F1 & O1 & A1 & S1 & Ik1). rewrite W.
+  destruct (IH total (rest - 1) s1 k1 I1 Ik1 ltac:(lia) ltac:(lia) ltac:(lia)) as (s' & k' & B & Us & Fk & Ok & Is' & Ik').
+  exists s', k'. split; [exact B|]. rewrite Us, Fk, F1, U1, Ok, O1.
+  replace (N.to_nat rest) with (S (N.to_nat (rest - 1))) by lia. cbn [skipn firstn]. rewrite <- app_assoc. auto 10.
+Qed.
